@@ -48,6 +48,33 @@ fn stream<T: Smp>(run: &mut Runner<T>, n_in: u64, sched: Option<&mut Rng>, max_c
     Ok(out)
 }
 
+/// like `stream`, with ratio changes (value, ramp) applied before the given call numbers
+fn stream_sched<T: Smp>(run: &mut Runner<T>, n_in: u64, schedule: &[(usize, f64, bool)], tspec: &mut Vec<f64>) -> Result<Vec<T>, String> {
+    let mut out: Vec<T> = Vec::new();
+    tspec.clear();
+    let op = exact_op();
+    let mut calls = 0usize;
+    while run.pos < n_in && calls < 3_000_000 {
+        for (k, v, ramp) in schedule {
+            if *k == calls {
+                run.step(&Op::SetRatio { v: *v, ramp: *ramp, rel: false });
+            }
+        }
+        // spacing every frame of this call must have: 1/ratio if no ramp is pending, unspecified (NaN) otherwise
+        let t = if run.model.cur == run.model.tgt { 1.0 / run.model.cur } else { f64::NAN };
+        let so = run.step(&op);
+        calls += 1;
+        match so.res {
+            Ok(_) => {
+                out.extend_from_slice(&so.out[0]);
+                tspec.extend(std::iter::repeat(t).take(so.out[0].len()));
+            }
+            Err(e) => return Err(e),
+        }
+    }
+    Ok(out)
+}
+
 fn ulp(x: f64) -> f64 {
     let x = x.abs().max(f64::MIN_POSITIVE);
     f64::from_bits(x.to_bits() + 1) - x
@@ -435,6 +462,8 @@ impl Acct {
         }
         let pre_ratio = if cfg.kind.is_async() && cfg.max_rel > 1.0 && rng.chance(0.3) { Some(gen_in_range_ratio(&mut rng, &cfg)) } else { None };
         let sched = cfg.kind.is_sinc() && rng.chance(0.4);
+        // 10 %: reset() somewhere in the stream; the accounting restarts with the stream
+        let reset_at: Option<u64> = if rng.chance(0.1) { Some(rng.logi(1, 5000) as u64) } else { None };
         // marathons: a slow drift (a fraction of a frame lost per call) only crosses the constant after
         // ~1e5..1e6 calls, and only when the constant is small (short filter)
         let marathon = rng.chance(0.12);
@@ -466,6 +495,7 @@ impl Acct {
             .with("cfg", cfg.json())
             .with("set_ratio_before_first_call", pre_ratio.map(J::f).unwrap_or(J::Null))
             .with("set_chunk_size_schedule", J::b(sched))
+            .with("reset_after_calls", reset_at.map(|x| J::Int(x as i128)).unwrap_or(J::Null))
             .with("frames_budget", J::Int(frames_budget as i128));
         set_desc(&desc);
         let mut cr = CaseResult { desc, ..Default::default() };
@@ -511,7 +541,21 @@ impl Acct {
         let mut worst = 0.0f64;
         // deviation envelope per block of 16384 calls (trend clause for very slow drifts)
         let mut env: Vec<(f64, f64)> = Vec::new();
+        let mut resets_done = 0u64;
+        let mut calls_at_restart = 0u64;
         while tin + tout < frames_budget && calls < max_calls {
+            if reset_at == Some(calls) && resets_done == 0 {
+                r.reset();
+                if let Some(v) = pre_ratio {
+                    let _ = r.set_resample_ratio(v, false);
+                }
+                resets_done = 1;
+                tin = 0;
+                tout = 0;
+                env.clear();
+                calls_at_restart = calls;
+                st.add("streams_restarted_by_reset", 1.0);
+            }
             if sched && rng.chance(0.2) {
                 let n = match rng.ui(0, 3) {
                     0 => 1,
@@ -532,7 +576,7 @@ impl Acct {
             calls += 1;
             if cfg.kind.is_async() {
                 let d = tout as f64 - ratio * tin as f64;
-                let b = (calls >> 14) as usize;
+                let b = ((calls - calls_at_restart) >> 14) as usize;
                 if env.len() <= b {
                     env.push((d, d));
                 } else {
@@ -671,6 +715,13 @@ impl Poly {
         gp.max_channels = 1;
         let mut cfg = gen_cfg(&mut rng, &gp);
         cfg.channels = 1;
+        if rng.chance(0.2) {
+            // "nice" ratios are where special-case shortcuts live (unity pass-through, integer factors)
+            cfg.ratio = *rng.pick(&[1.0, 1.0, 2.0, 0.5]);
+            if cfg.max_rel < 1.05 && rng.bool() {
+                cfg.max_rel = rng.uf(1.05, 4.0);
+            }
+        }
         let deg = cfg.degree.degree();
         // short streams matter: the highest-order differences of a polynomial scaled to the stream
         // length vanish like (1/length)^degree, so only short streams exercise the top coefficients
@@ -678,7 +729,20 @@ impl Poly {
         let mode = rng.ui(0, 9); // 0..6 polynomial of admissible degree, 7 degree+1 (sensitivity), 8..9 sinusoid
         let pre_ratio = if cfg.max_rel > 1.0 && rng.chance(0.3) { Some(gen_in_range_ratio(&mut rng, &cfg)) } else { None };
         let r_eff = pre_ratio.unwrap_or(cfg.ratio);
-        let n_in = n_in.min((400_000.0 / r_eff.max(1.0)) as u64).max(40);
+        // 30 %: a ratio schedule (stepped and ramped changes) during the stream: every output frame must still
+        // be the polynomial evaluated at its own (measured) instant, whatever the history of the ratio
+        let schedule: Vec<(usize, f64, bool)> = if cfg.max_rel > 1.02 && rng.chance(0.3) {
+            (0..rng.ui(1, 4))
+                .map(|_| {
+                    // often back to exactly the original ratio
+                    let v = if rng.chance(0.4) { cfg.ratio } else { gen_in_range_ratio(&mut rng, &cfg) };
+                    (rng.ui(1, 40), v, rng.bool())
+                })
+                .collect()
+        } else {
+            Vec::new()
+        };
+        let n_in = n_in.min((400_000.0 / (if schedule.is_empty() { r_eff } else { cfg.hi() }).max(1.0)) as u64).max(40);
         let (c, s) = (n_in as f64 / 2.0, n_in as f64 / 2.0 + 8.0);
         let (sigkind, pmax, what, pdeg);
         if mode <= 7 {
@@ -710,6 +774,7 @@ impl Poly {
             .with("cfg", cfg.json())
             .with("set_ratio_before_first_call", pre_ratio.map(J::f).unwrap_or(J::Null))
             .with("input_frames", J::Int(n_in as i128))
+            .with("ratio_schedule_call_ratio_ramp", J::Arr(schedule.iter().map(|(k, v, r)| J::Arr(vec![J::u(*k), J::f(*v), J::b(*r)])).collect()))
             .with("input", J::s(&what));
         set_desc(&desc);
         let mut cr = CaseResult { desc, ..Default::default() };
@@ -738,8 +803,13 @@ impl Poly {
             ri.step(&Op::SetRatio { v, ramp: false, rel: false });
             rv.step(&Op::SetRatio { v, ramp: false, rel: false });
         }
-        let inst = stream(&mut ri, n_in, None, 3_000_000);
-        let vals = stream(&mut rv, n_in, None, 3_000_000);
+        let mut tspec: Vec<f64> = Vec::new();
+        let (inst, vals) = if schedule.is_empty() {
+            (stream(&mut ri, n_in, None, 3_000_000), stream(&mut rv, n_in, None, 3_000_000))
+        } else {
+            let mut dummy = Vec::new();
+            (stream_sched(&mut ri, n_in, &schedule, &mut tspec), stream_sched(&mut rv, n_in, &schedule, &mut dummy))
+        };
         let (inst, vals) = match (inst, vals) {
             (Ok(a), Ok(b)) => (a, b),
             _ => {
@@ -766,7 +836,10 @@ impl Poly {
                 prev_tau = None;
                 continue;
             }
-            if let Some(p) = prev_tau {
+            // uniform spacing 1/ratio: always at constant ratio; under a schedule for every frame produced by a
+            // call without a pending ramp (a stepped change applies from the first frame of the next chunk)
+            let t = if schedule.is_empty() { t } else { tspec.get(j).copied().unwrap_or(f64::NAN) };
+            if let Some(p) = prev_tau.filter(|_| t.is_finite()) {
                 let d = tau - p;
                 let tol = 1e-9f64.max(256.0 * ulp(tau));
                 if (d - t).abs() > tol {
@@ -856,6 +929,9 @@ impl Poly {
         }
         st.add("frames_checked", checked as f64);
         st.add(&format!("cases.{}.{}", cfg.kind.name(), cfg.degree.name()), 1.0);
+        if !schedule.is_empty() {
+            st.add("cases_with_ratio_schedule", 1.0);
+        }
         st.add(match mode {
             0..=6 => "polynomial_cases",
             7 => "degree_plus_one_cases",
